@@ -576,6 +576,23 @@ def evaluate(ctx, cases, label, plaquette_budget=None):
                         bad.append(("trail:not-idempotent", "remove_trailing_edges applied twice differs from once"))
                 except Exception as e:
                     bad.append(("trail:raised", f"second application raised {type(e).__name__}: {e}"))
+            if not bad and k == "perm" and len(pos) >= 2:
+                # the same ordering written with numpy's wrap-around indices (entry - V for every second entry) names the same
+                # vertices: an implementation may refuse it, but if it accepts it the result must be the same lattice
+                V_ = len(pos)
+                wrapped = np.array([int(x) - V_ if (j + i) % 2 else int(x) for j, x in enumerate(op["ord"])], dtype=np.int64)
+                st_w = res.extra.setdefault("permute_vertices_wraparound_ordering", {"accepted_and_equal": 0, "refused": 0})
+                try:
+                    w_out = arr(permute_vertices(Lattice(pos.copy(), edges.copy(), cr.copy()), wrapped))
+                except Exception:
+                    st_w["refused"] += 1
+                    w_out = None
+                if w_out is not None:
+                    if all(np.array_equal(a, b) for a, b in zip(w_out, out)):
+                        st_w["accepted_and_equal"] += 1
+                    else:
+                        bad.append(("perm:wraparound-ordering", f"permute_vertices accepts the ordering {wrapped.tolist()[:8]} (= {list(op['ord'])[:8]} with wrap-around "
+                                    f"indices) but returns a different lattice than for the plain ordering: positions follow the ordering, edges do not"))
             if not bad and k == "cut":
                 bx, by = op["b"]
                 try:
